@@ -232,6 +232,9 @@ func (g *uciGen) goLine() (line string, selfEnds bool, ponder bool) {
 		if r.IntN(2) == 0 {
 			s += fmt.Sprintf(" winc %s binc %s", num([]int{0, 1, 100, 2000}), num([]int{0, 1, 100, 2000}))
 		}
+		if r.IntN(5) == 0 {
+			s += fmt.Sprintf(" movestogo %d", pick(r, []int{1, 1, 2, 10, 40}))
+		}
 		if r.IntN(4) == 0 {
 			s += " depth " + fmt.Sprint(1+r.IntN(5))
 		}
